@@ -61,6 +61,22 @@ func derivesFrom(v ssa.Value, m VM, stop map[string]bool) bool {
 			return rec(x.X, d+1)
 		case *ssa.IndexAddr:
 			return rec(x.X, d+1)
+		case *ssa.Alloc:
+			// contents of a local array/variable (e.g. a variadic argument slice)
+			for _, r := range referrers(x) {
+				switch y := r.(type) {
+				case *ssa.Store:
+					if y.Addr == ssa.Value(x) && rec(y.Val, d+1) {
+						return true
+					}
+				case *ssa.IndexAddr:
+					for _, rr := range referrers(y) {
+						if st, ok := rr.(*ssa.Store); ok && st.Addr == ssa.Value(y) && rec(st.Val, d+1) {
+							return true
+						}
+					}
+				}
+			}
 		}
 		return false
 	}
